@@ -136,6 +136,10 @@ def handle (j : Json) (cache : Bool) : Except String Verdict := do
     let sched := schedule L accsT
     let tie := !tieFreeB sched
     if tie then tags := tags ++ ["stamp-tie"]
+    -- hypotheses of `cache_eq_reference_partial`, evaluated on the code's view of the accesses
+    let schedS := schedule L accsS
+    let hypOk := schedNextOkB schedS && schedOrdB schedS && schedS.all (fun x => !x.2.staging)
+    if cache && hypOk then tags := tags ++ ["cache-thm-applies"]
     if !(cfgs.zip accsT).all (fun (b, t) => winContigB b.evictEnd t) then tags := tags ++ ["window-not-contiguous"]
     if !accsT.all (fun t => stampsSortedB (t.map (·.stamp))) then tags := tags ++ ["unsorted-stamps"]
     let mut prevReads : Option Nat := none
@@ -193,6 +197,7 @@ def handle (j : Json) (cache : Bool) : Except String Verdict := do
     if !inWorld && wrongPop then tags := tags ++ ["explained:pinned-pop-other-binding"]
     if !inWorld && !wrongPop && tie then tags := tags ++ ["explained:stamp-tie"]
     if !inWorld && !wrongPop && !tie then tags := tags ++ ["MODEL-NOT-SPEC"]
+    if cache && hypOk && !inWorld then tags := tags ++ ["THEOREM-CONTRADICTED"]
     if inWorld && staleMatters then tags := tags ++ ["explained:stale-shape"]
     -- line-granularity: the jittered rerun (first capacity) must charge the same
     match jit, first with
